@@ -10,7 +10,7 @@
     carry the numbers n, n+1, ... and each holds exactly one attempt per representation in
     representation order.  The availability function [sc_avail cf] is a parameter of the
     configuration; [mk_scfg] instantiates it with the code's float64 computation. *)
-From Verif Require Import GoSem Timeline Ingest IngestProofs IngestHandoverProofs.
+From Verif Require Import GoSem Timeline Ingest IngestProofs IngestHandoverProofs IngestLiveEdge.
 
 (** ** Order: init first, then consecutive numbers, one attempt per representation per group —
     for every event sequence, every clock, every receiver behaviour, every availability function. *)
@@ -22,6 +22,16 @@ Theorem C16_order : forall cf now initres evs inits gs st,
    nextNr (snd (start cf now initres)) = findLastSegNr cf now + 1).
 Proof. exact session_order. Qed.
 Print Assumptions C16_order.
+
+(** The number that [C16_order] starts from is the live edge + 1: [n] is the newest segment of the
+    reference representation that has ended at the start instant (E n <= now < E (n+1), in
+    milliseconds x timescale), with the window theorems of C02 (WindowProofs.timeline_is_window). *)
+Theorem C16_first_number : forall cf now n,
+  wf (sc_ref cf) (sc_loopMS cf) -> startS (sc_cfg cf) * 1000 <= now -> 0 <= n ->
+  E (sc_ref cf) n * 1000 <= (now - startS (sc_cfg cf) * 1000) * ts (sc_ref cf) < E (sc_ref cf) (n + 1) * 1000 ->
+  findLastSegNr cf now = n.
+Proof. exact first_number_is_live_edge. Qed.
+Print Assumptions C16_first_number.
 
 (** Nothing is sent after Cancel, whatever follows. *)
 Theorem C16_cancel : forall cf st evs1 evs2,
